@@ -243,6 +243,13 @@ def bgAddWindow (seq : Array Nat) (start w : Nat) (bg : Array Nat) : R (Array Na
     | .error e => .error e
     | .ok c => addAt b c 1) bg
 
+/-- `for symbol in 0..K { bg[symbol] += counts[symbol] }` then
+    `for j in start..start+w { bg[seq[j]] -= 1 }`: adds the symbols outside the window -/
+def addOutside (K : Nat) (counts seq : Array Nat) (start w : Nat) (bg : Array Nat) : R (Array Nat) :=
+  match addCounts K counts bg with
+  | .error e => .error e
+  | .ok b1 => bgSubWindow seq start w b1
+
 /-- `Sampler::_new`.  The motif loop and the background loop run over all sequences in order and
     touch the active ones. -/
 def init {K : Nat} (D : Data) (P : Params) (ic : InitChoice) : R (State K) :=
@@ -263,9 +270,7 @@ def init {K : Nat} (D : Data) (P : Params) (ic : InitChoice) : R (State K) :=
     | .ok motif =>
       match forUp D.n (fun i b =>
           if active.data.getD i false then
-            match addCounts K (D.cnt i) b with
-            | .error e => .error e
-            | .ok b1 => bgSubWindow (D.seq i) (starts.getD i 0) P.w b1
+            addOutside K (D.cnt i) (D.seq i) (starts.getD i 0) P.w b
           else .ok b)
           (Array.replicate K 0) with
       | .error e => .error e
